@@ -13,3 +13,5 @@ import SpoxModel.Props.C11
 #print axioms C11.table_conforms_except
 #print axioms C11.constant_sparse_value_counterexample
 #print axioms C11.group_normalization_deprecated_counterexample
+#print axioms C11.outputs_never_omitted
+#print axioms C11.batchnorm_outputs_counterexample
